@@ -353,16 +353,17 @@ def judge(run, cases, rows, details, verbose=False):
                         theorem="Lex.Check.arity_errors")
         for kind, scope, ident in du:
             if kind.startswith("reload-"):
-                # defined twice in the file set of an EARLIER reload of the case, not in the end state
-                base = kind[len("reload-"):]
-                sch = dup_scheme(c, base, scope, ident)
-                run.cov["transient_duplicates"] = run.cov.get("transient_duplicates", 0) + 1
-                if sch.startswith("unexplained:"):
-                    run.failing({"kind": "duplicate-at-reload", "ident": base}, [slim(c)],
-                                "identifier defined twice in the file set NGINX loads at a reload inside the history (not in the end state): %s %r in scope %s (case %d, class %s)"
-                                % (base, ident, scope, cid, c["class"]), theorem="Lex.Check.dup_idents on every reload snapshot")
-                    continue
-                kind = base
+                # Defined twice in the file set of an EARLIER reload of the history, not in the end state.
+                # NOT part of the verdict: the unchanged Configuration itself emits gainer-before-loser orders
+                # inside one batch (upsert of the host's new holder before the upsert of the resource that
+                # loses it; 6 of 5000 sets on HEAD fcb6195, e.g. a master Ingress taking c.com from a
+                # multi-host Ingress), and the file sets in the middle of a batch belong to no set of accepted
+                # resources (C07 quantifies over sets; cf. C01-4).  Counted as coverage information only.
+                run.cov["transient_duplicates_inside_a_batch"] = run.cov.get("transient_duplicates_inside_a_batch", 0) + 1
+                tk = "%s@%s" % (kind[len("reload-"):], scope)
+                td = run.cov.setdefault("transient_duplicate_kinds", {})
+                td[tk] = td.get(tk, 0) + 1
+                continue
             sch = dup_scheme(c, kind, scope, ident)
             run.failing({"kind": "duplicate", "ident": kind, "scheme": sch}, [slim(c)],
                         "identifier defined twice across the generated files: %s %r in scope %s (case %d, class %s, scheme %s)" % (kind, ident, scope, cid, c["class"], sch),
@@ -401,6 +402,7 @@ def check(run):
                        "known findings first.")
     run.cov["trusted_base"] = TRUSTED
     run.assumptions += ["semantic nginx -t checks beyond lexing, arity, numeric server parameters and identifier uniqueness (e.g. host not found in upstream) are not modelled: no nginx binary",
+                        "the file sets at reloads INSIDE one change batch are lexed and arity-checked, but duplicates that exist only there (not after the operation) are counted, not judged: the unchanged Configuration orders gainer before loser itself",
                         "snippets are disabled in every generated set (their content is arbitrary configuration by design)",
                         "App Protect WAF/DoS and OIDC policies are not generated"]
 
